@@ -238,7 +238,7 @@ namespace ratio
     void fire_read(const std::vector<std::string> &files) const noexcept;
     CORE_EXPORT void fire_state_changed() const noexcept;
     CORE_EXPORT void fire_started_solving() const noexcept;
-    CORE_EXPORT void fire_solution_found() const noexcept;
+    CORE_EXPORT void fire_solution_found() const; // a listener may refuse the solution by throwing (the executor does, when the plan can no longer be executed)..
     CORE_EXPORT void fire_inconsistent_problem() const noexcept;
 #endif
   };
